@@ -50,6 +50,13 @@ func pokeWithCustomHooks(text string) {
 	_, _ = sem.Parse(text)
 	_, _ = sem.ParseTag(text)
 	_, _ = sem.Compare(text, text)
+	// second stage: a Formatter that fails (after writing something), used once, before the defaults come back
+	sem.Formatter = func(buf []byte, v sem.Ver, f sem.Format) ([]byte, error) {
+		return append(buf, "part"...), errors.New("formatter refused")
+	}
+	_, _ = v.String(), v.StringTag()
+	_ = fmt.Sprintf("%s %t", v, v)
+	_, _ = v.MarshalText()
 }
 
 func setLimit(l int) func() {
